@@ -201,3 +201,51 @@ def _chk_chunks(args, res, old):
 
 contract("cnvlib/parallel.py::to_chunks", params=dict(bed=Str, chunk=Int), bounded=True, gen=_gen_chunks, call=_call_chunks,
          modifies=("tmp", "bed"), props=("C09",), checks=[("chunks_partition_the_lines", _chk_chunks)])
+
+
+# ----------------------------------------------------------------------------- deductive: the --count algorithm's rule
+# Reads are objects with the flags pysam exposes; AlignmentFile.fetch is an assumed contract returning the file's
+# reads for the region (ghost field `reads`).  The counts are sums of indicators (prefix-sum functions), the invariant
+# says "so far" for both accumulators.
+from .c_call import CHROM, GENE       # noqa: E402
+
+_READ = ObjT("AlignedSegment", is_duplicate=Bool, is_secondary=Bool, is_unmapped=Bool, is_qcfail=Bool, mapq=Int,
+             positions=VecT(Int, kind="list"))
+_BAM = ObjT("AlignmentFile", reads=SeqT(_READ))
+
+contract("ext::AlignmentFile.fetch", params=dict(self=_BAM, reference=CHROM, start=Int, end=Int),
+         returns=SeqT(_READ), trusted=True, requires=[],
+         ensures=[], ghost=dict(result_is="self.reads"),
+         props=(), domain="skip",
+         notes="pysam: the reads overlapping the region, as a sequence (modelled as the object's ghost field `reads`; which "
+               "reads pysam returns for a region is its business and is exercised by the bounded C09 contracts)")
+
+_PASS = ("(not bamfile.reads[k].is_duplicate and not bamfile.reads[k].is_secondary and not bamfile.reads[k].is_unmapped and "
+         "not bamfile.reads[k].is_qcfail and bamfile.reads[k].mapq >= min_mapq)")
+
+_INREG = "countif(bamfile.reads[k].positions, lambda p: start <= p and p < end)"
+
+contract(
+    "cnvlib/coverage.py::region_depth_count",
+    params=dict(bamfile=_BAM, chrom=CHROM, start=Int, end=Int, gene=GENE, min_mapq=Int),
+    returns=TupT(Int, TupT(CHROM, Int, Int, GENE, Real, Real)),
+    requires=[],
+    ghost=dict(defs=dict(
+        g_counted="Vec(len(bamfile.reads), lambda k: ite(PASS, 1, 0))".replace("PASS", _PASS),
+        g_bases="Vec(len(bamfile.reads), lambda k: ite(PASS, INREG, 0))".replace("PASS", _PASS).replace("INREG", _INREG))),
+    loops={0: dict(inv=[("count_so_far", "count == psum(g_counted, i_)"),
+                        ("bases_so_far", "bases == psum(g_bases, i_)")])},
+    ensures=[
+        ("echoes_the_bin", "result[1][0] == chrom and result[1][1] == start and result[1][2] == end and result[1][3] == gene"),
+        # reads flagged duplicate, secondary, unmapped or QC-fail, or below the mapping-quality cut-off, are not counted
+        ("counts_only_usable_reads", "result[0] == sumof(g_counted)"),
+        # depth = aligned bases of the counted reads inside the bin / bin length (0 for an empty or reversed bin)
+        ("mean_depth", "result[1][5] == ite(end > start, sumof(g_bases) / (end - start), 0)"),
+        ("log2_of_depth", "result[1][4] == ite(result[1][5] != 0, log2(result[1][5]), -20)"),
+    ],
+    props=("C09",), domain="skip",
+    canaries=[("duplicates_counted", "read.is_duplicate\n            or ", ""),
+              ("mapq_le", "read.mapq < min_mapq", "read.mapq <= min_mapq"),
+              ("bases_outside_bin", "if start <= p < end", "if start <= p <= end"),
+              ("unfiltered_bases", "if filter_read(read):", "if True:")],
+)
